@@ -200,6 +200,9 @@ def o_raises_any(sim, op, spec, out):
     """Unknown unit where a unit is required: must not return a value."""
     if out[0] == "intr":
         return
+    if spec.get("unit") is not None and M.unit_type(spec["unit"]) is not None:
+        sim.count("precondition_lapsed")  # the name is registered (by now): nothing to refuse
+        return
     ok = out[0] == "exc" and isinstance(out[1], M.loud_classes())
     sim.check(
         ok,
